@@ -36,12 +36,50 @@ def build_cooler(path, per, pixels):
     import cooler
     cs = pd.Series({f"c{k}": int(p) * 10 for k, p in enumerate(per)})
     bins = cooler.binnify(cs, 10)
-    px = sorted((int(i), int(j), int(c)) for i, j, c in pixels)
-    df = pd.DataFrame({"bin1_id": np.array([p[0] for p in px], dtype=np.int64),
-                       "bin2_id": np.array([p[1] for p in px], dtype=np.int64),
-                       "count": np.array([p[2] for p in px], dtype=np.int64)})
-    cooler.create_cooler(str(path), bins, df)
+    if is_float_counts(pixels):
+        px = sorted((int(i), int(j), float(c)) for i, j, c in pixels)
+        df = pd.DataFrame({"bin1_id": np.array([p[0] for p in px], dtype=np.int64),
+                           "bin2_id": np.array([p[1] for p in px], dtype=np.int64),
+                           "count": np.array([p[2] for p in px], dtype=np.float64)})
+        cooler.create_cooler(str(path), bins, df, dtypes={"count": np.float64})
+    else:
+        px = sorted((int(i), int(j), int(c)) for i, j, c in pixels)
+        df = pd.DataFrame({"bin1_id": np.array([p[0] for p in px], dtype=np.int64),
+                           "bin2_id": np.array([p[1] for p in px], dtype=np.int64),
+                           "count": np.array([p[2] for p in px], dtype=np.int64)})
+        cooler.create_cooler(str(path), bins, df)
     return cooler.Cooler(str(path))
+
+
+def is_float_counts(pixels):
+    return any(isinstance(c, float) for _, _, c in pixels)
+
+
+def den_of(pixels):
+    """smallest power of two d with every count * d integral (1 for integer tables); counts are dyadic by construction"""
+    d = 1
+    while any((Fraction(c) * d).denominator != 1 for _, _, c in pixels):
+        d *= 2
+        assert d <= 2 ** 12
+    return d
+
+
+def float_counts(rng, pixels, kind=None):
+    """turn an integer pixel list into a float64 one with dyadic fractional values:
+    'frac01' all values in (0,1); 'fracgt1' values > 1 with a fraction; 'mixed' both plus some integers"""
+    kind = kind or rng.choice(["frac01", "frac01", "fracgt1", "mixed"])
+    den = rng.choice([8, 16])
+    out = []
+    for i, j, c in pixels:
+        k = rng.choice(["frac01", "fracgt1", "int"]) if kind == "mixed" else kind
+        if k == "frac01":
+            v = rng.randint(1, den - 1) / den
+        elif k == "fracgt1":
+            v = rng.randint(1, 9) + rng.randint(1, den - 1) / den
+        else:
+            v = float(rng.randint(1, 6))
+        out.append([i, j, v])
+    return out
 
 
 def random_pixels(rng, per, density=None, maxc=12, empty_rows=True):
@@ -89,7 +127,7 @@ def random_opts(rng, per, mode=None, simple=False):
          "diags": rng.choice([0, 0, 1, 1, 2, 3]),
          "mad": 0 if simple else rng.choice([0, 0, 1, 2, 3]),
          "nnz": 0 if simple else rng.choice([0, 0, 1, 2, 3]),
-         "count": 0 if simple else rng.choice([0, 0, 0, 3, 8, 15]),
+         "count": 0 if simple else rng.choice([0, 0, 0, 3, 8, 15, 0.5, 1.25, 2.5]),
          "black": None, "tol": rng.choice(TOLS), "iters": rng.choice([1, 2, 3, 50, 200, 200]),
          "x0": None, "rescale": rng.random() < 0.7}
     if not simple and rng.random() < 0.3:
@@ -112,6 +150,7 @@ def mode_of(o):
 def dense_int(n, pixels):
     F = [[0] * n for _ in range(n)]
     for i, j, c in pixels:
+        c = Fraction(c) if isinstance(c, float) else c          # float counts are dyadic: exact
         F[i][j] += c
         if i != j:
             F[j][i] += c
@@ -377,7 +416,14 @@ def q_opt(v):
     return "None" if v is None else "(Some " + C.q(Fraction(v)) + ")"
 
 
-def coq_opts(o, chunk):
+def coq_opts(o, chunk, den=1):
+    """den: common denominator of a float count table; the model runs on the integer numerators, so thresholds
+    in count units are scaled: min_count * den (must be integral), tol * den^2"""
+    o = dict(o)
+    cnt = Fraction(o["count"]) * den
+    assert cnt.denominator == 1, "min_count * den must be integral"
+    o["count"] = int(cnt)
+    o["tol"] = Fraction(o["tol"]) * den * den
     x0 = "None" if o["x0"] is None else "(Some " + C.lst([q_opt(v) for v in o["x0"]]) + ")"
     return ("(Build_opts " + " ".join([
         C.b(o["cis"]), C.b(o["trans"]), C.z(o["diags"]), C.z(o["mad"]), C.z(o["nnz"]), C.z(o["count"]),
@@ -385,13 +431,25 @@ def coq_opts(o, chunk):
         "None" if chunk is None else "(Some " + C.z(chunk) + ")", x0]) + ")")
 
 
-def coq_px(pixels):
-    return C.lst([C.tup(C.z(i), C.z(j), C.z(c)) for i, j, c in sorted(map(tuple, pixels))])
+def model_den(o, pixels):
+    """power of two making every count and the min_count threshold integral"""
+    d = den_of(pixels)
+    while (Fraction(o["count"]) * d).denominator != 1:
+        d *= 2
+        assert d <= 2 ** 12
+    return d
+
+
+def coq_px(pixels, den=None):
+    den = den_of(pixels) if den is None else den
+    return C.lst([C.tup(C.z(i), C.z(j), C.z(int(Fraction(c) * den))) for i, j, c in sorted(map(tuple, pixels))])
 
 
 def coq_balance_args(o, per, pixels, chunk):
     n = sum(per)
-    return f"{coq_opts(o, chunk)} {C.nat(n)} {C.zl(chroms_of(per))} {C.zl(offsets_of(per))} {coq_px(pixels)}"
+    den = model_den(o, pixels)
+    return (f"{coq_opts(o, chunk, den)} {C.nat(n)} {C.zl(chroms_of(per))} {C.zl(offsets_of(per))} "
+            f"{coq_px(pixels, den)}")
 
 
 def relclose(a, b, rel=1e-9, abs_=0.0):
